@@ -263,6 +263,84 @@ def borrowed_error_rule(fx, ck, name="R6.borrowed-string-before-clobber"):
     ck.anchor(n >= 1, "foreign call followed by CStr::from_ptr in src/ffi (found %d)" % n)
 
 
+def freed_once_sites(fx, files):
+    """A foreign callback is given handles the caller created (`Box::into_raw`) and returns a handle the caller then
+    owns (`Box::from_raw(result)`).  Nothing stops the callback from returning one of the handles it was given, so a
+    free of a given handle after the call must sit on the `handle != result` edge of a comparison with the result:
+    otherwise the same box is freed twice (or the result is read after it was freed)."""
+    from c09 import ancestors, edge_dominates
+    for f in sorted(fx.fns.values(), key=lambda g: g.path):
+        if not f.file.startswith(files) or f.derived:
+            continue
+        frees = [(bi, t) for bi, t in f.calls() if t[1].get("d", "").endswith("Box::<T>::from_raw") and t[2] and t[2][0][0] in ("c", "m")]
+        if len(frees) < 2:
+            continue
+        for ib, it in f.calls():
+            if "ptr" not in it[1] or it[3][1]:
+                continue
+            res = it[3][0]
+            rty = f.locals[res]
+            if fx.ty(rty)["k"] != "ptr":
+                continue
+            after = f.reachable_from(ib)
+            given = set()
+            for a in it[2]:
+                if a[0] in ("c", "m"):
+                    given |= ancestors(f, a[1][0])
+            taken, handles = [], []
+            for bi, t in frees:
+                if bi not in after or bi == ib or f.locals[t[2][0][1][0]] != rty:
+                    continue
+                anc = ancestors(f, t[2][0][1][0])
+                if res in anc:
+                    taken.append((bi, t))
+                elif anc & given:
+                    handles.append((bi, t, anc))
+            if not taken or not handles:
+                continue
+            # comparisons of something with the result
+            cmps = []
+            for bi, bl in enumerate(f.blocks):
+                if bl["c"]:
+                    continue
+                for s_ in bl["s"]:
+                    if s_[0] == "a" and s_[2][0] == "bin" and s_[2][1] in ("Ne", "Eq") and not s_[1][1]:
+                        sides = [o[1][0] for o in s_[2][2:4] if o[0] in ("c", "m")]
+                        if len(sides) == 2 and any(res in ancestors(f, x) for x in sides):
+                            t = bl["t"]
+                            if t[0] == "switch" and t[1][0] in ("c", "m") and t[1][1][0] == s_[1][0]:
+                                zero = [b for v, b in t[2] if v == "0"]
+                                ne_edge = t[3] if s_[2][1] == "Ne" else (zero[0] if zero else None)
+                                other = [x for x in sides if res not in ancestors(f, x)]
+                                cmps.append((bi, ne_edge, other))
+            for bi, t, anc in handles:
+                ok = any(edge_dominates(f, e, bi) and any(o in anc or (ancestors(f, o) & anc) for o in oth) for cb, e, oth in cmps)
+                yield f, t, taken, ok
+
+
+def freed_once_rule(fx, ck, name="R7.returned-handle-freed-once"):
+    ck.rule(name, "after a foreign call whose returned pointer is taken with Box::from_raw, every Box::from_raw of a handle the callee was given is guarded by `handle != result`", floor=1)
+    n = 0
+    if True:
+        if True:
+            for f, t, taken, ok in freed_once_sites(fx, ("src/ffi",)):
+                n += 1
+                ck.instance(name, "%s: free of a handle given to the callee" % f.parent, F.short_span(t[6]), ok=ok)
+                if not ok:
+                    ck.finding(name, "%s/%s" % (name, f.parent), F.short_span(t[6]),
+                               "`%s` frees a handle it passed to the foreign function (%s) and also takes ownership of the pointer that function returned (%s) "
+                               "without comparing the two: a callee that returns one of its arguments makes this a double free"
+                               % (f.parent, F.short_span(t[6]), F.short_span(taken[0][1][6])))
+    ck.anchor(n >= 1, "frees of handles given to a foreign callee whose result is also taken (found %d)" % n)
+    ctl = F.load_fixture()
+    got = sorted((f.path.split("::")[-1], ok) for f, t, taken, ok in freed_once_sites(ctl, ("src/lib.rs",)) if f.path.startswith("c17free::"))
+    want = [("bad_trampoline", False), ("good_trampoline", True), ("good_trampoline_eq", True)]
+    if got != want:
+        ck.closed_fail.append("R7 control failed: fixture reports %s (want %s)" % (got, want))
+    ck.note("R7 controls: fixture bad_trampoline (frees its argument and the result unconditionally) reported; good_trampoline (`!=` guard) and good_trampoline_eq (`==` -> skip) silent")
+    return n
+
+
 def run(tier):
     ck = Check("C17", tier, "null-test dominance on MIR CFG for extern \"C\" pointer parameters (helpers, closures, array idiom) + C header parser compared with compiled signatures + RefCell-guard-held-across-hazard dataflow",
                ["aliasing of `&mut TsRunContext` re-borrowed inside native callbacks", "callback re-entrancy protocols",
@@ -280,4 +358,5 @@ def run(tier):
     import arraylen
     arraylen.rule(fx, ck)
     borrowed_error_rule(fx, ck)
+    freed_once_rule(fx, ck)
     return ck.finish()
